@@ -279,8 +279,44 @@ func Corpus12() []*GCase {
 		res = append(res, batch("b_addr_"+agg, "address[]", agg, Flt{Op: "contains", Args: []string{hx(A)}}, Flt{},
 			Val{Bytes: A}, Val{Bytes: B}, Val{Bytes: A}, Val{Bytes: B}, Val{Bytes: A}, Val{Bytes: B}))
 	}
-	for i, c := range res {
-		if c.Kind == "corpus-pushdown-ref" && i%2 == 0 && Validatable(c) {
+	// reference filters on BLOCK fields in every indexing mode (built through ValidateFix below)
+	{
+		refBD := func(name, mode, field, op, agg string, extra bool) *GCase {
+			P, Q := rep(0xc5, 20), rep(0xc6, 20)
+			d := Decl{Name: name, Event: "RB", Agg: agg, Block: []BD{{Name: field, Column: "refd",
+				Flt: Flt{Op: op, RefIG: "ig_ref_t", RefTable: "ref_t", RefCol: "c"}}, {Name: "tx_nonce", Column: "tx_nonce"}}}
+			if extra {
+				d.Block[1].Flt = Flt{Op: "gt", Args: []string{"5"}}
+			}
+			var txs []Tx
+			for i, a := range [][]byte{P, Q, P, Q} {
+				t := fixedTx(uint64(i), nil, nil)
+				t.To, t.From, t.Nonce = a, a, uint64(4+i)
+				switch mode {
+				case "trace":
+					t.Traces = []Trace{{Idx: 0, CallType: "call", From: Q, To: a, Value: "1"}, {Idx: 1, CallType: "call", From: a, To: P, Value: "2"}}
+				case "log":
+					d.Inputs = []Input{{Name: "a", Indexed: true, Type: "uint256", Column: "a"}}
+					t.Logs = []Log{BuildLog(d, d.SigHash(), []Val{uintVal("9")}, a, uint64(2*i))}
+				}
+				txs = append(txs, t)
+			}
+			c := finish(&GCase{Kind: "corpus-ref-block-field", Decl: d, Blocks: []Block{fixedBlock(1, txs...)}})
+			c.DB = []RefTable{{Table: "ref_t", Column: "c", Vals: [][]byte{P}}}
+			return c
+		}
+		for _, op := range []string{"contains", "!contains"} {
+			on := map[string]string{"contains": "c", "!contains": "n"}[op]
+			for _, agg := range []string{"or", "and"} {
+				res = append(res, refBD("rb_tx_"+on+agg, "tx", "tx_to", op, agg, agg == "and"))
+				res = append(res, refBD("rb_tr_"+on+agg, "trace", "trace_action_to", op, agg, agg == "or"))
+				res = append(res, refBD("rb_lg_"+on+agg, "log", "log_addr", op, agg, false))
+				res = append(res, refBD("rb_sg_"+on+agg, "log", "tx_signer", op, agg, true))
+			}
+		}
+	}
+	for _, c := range res {
+		if (c.Kind == "corpus-pushdown-ref" || c.Kind == "corpus-ref-block-field") && Validatable(c) {
 			v := *c
 			v.Decl.Block = append([]BD{}, c.Decl.Block...)
 			v.Decl.TableCols = append([]string{}, c.Decl.TableCols...)
